@@ -28,13 +28,13 @@ add("C10",
 add("C15",
     "Coq theorems over an executable model of the NaN-aware best-individual scan (Island, SerialArchipelago), of Python's "
     "min(key=fitness) (ParallelArchipelago) and of the predictor island's re-labelling with full-data fitness: the returned "
-    "individual is a member, nobody is strictly fitter, NaN is reported only if every member of every island is NaN. Tied to "
+    "individual is a member, nobody is strictly fitter, NaN is reported only if every member of every island is NaN. The replacement test of both scans is TRANSLATED from the current source on every run (tr_best.py -> Gen/BestRules.v, scan shape pinned) and proved to be the model's. Tied to "
     "the code by correspondence on generated fitness layouts (which slot is returned, compared inside Coq) and by real "
     "FitnessPredictorIsland runs whose reported fitness values are compared bit-for-bit with an independent full-data evaluation.",
     "Trusted: Coq kernel; order embedding of floats into Z; the harness. The parallel archipelago is only pinned at source "
     "level (mpi4py absent) and its full statement is refuted (known finding F7b). The predictor-island theorem treats the "
     "full-data fitness as an abstract function of the genome; what ties it to bingo is the per-generation comparison. Axiom-free.",
-    "Rocq/Coq proof (scan invariant) + differential correspondence + real predictor-island runs")
+    "Rocq/Coq proof (scan invariant) + translator for the scan test + differential correspondence + real predictor-island runs")
 
 add("C08",
     "Coq theorems over an executable model of AgeFitness (while loop, index sampling as an oracle tape, removal-set scan with "
